@@ -17,9 +17,9 @@ META = dict(technique='Coq proof (counter/monitor invariants for every algorithm
             level_note='Trusted: Coq kernel+VM; harness (generators, instrumentation of /repo from outside, printers, oracles). User cost/constraints/penalty, DE trial vectors, Nelder-Mead candidate points, argsort permutation and post-decoration populations are oracle inputs (recorded in the correspondence, universally quantified in theorems). Not in the machine model (oracle only): Powell, ensembles, tight/clip range modes. No NaN energies.',
             design_ref="5/C04")
 
-generate = SC.make_generate(**dict(allow_vector=True))
-run_impl = SC.run_impl
-oracle = SC.oracle_c04
+_generate = SC.make_generate(**dict(allow_vector=True))
+_oracle = SC.oracle_c04
+generate, run_impl, oracle = SC.with_extras(_generate, SC.run_impl, _oracle, {"collapse": (0.12, SC.gen_collapse, SC.run_collapse, SC.oracle_collapse)})
 coq_preamble = SC.coq_preamble
 coq_terms = SC.make_coq_terms('(mk_mask false true true true true false true true)')
 coq_debug = SC.coq_debug
